@@ -6,7 +6,7 @@ import sympy as sp
 
 from ..spec import Checker, FR, obj_summary
 from ..sigmodel import make_signal, N, NCHAN, CF, BW, SR, T0
-from ..values import Num, StrV, ObjV, NONE, Hz, F, NONE_S, TupleV, SliceV, BoolV
+from ..values import Num, StrV, ObjV, NONE, Hz, F, NONE_S, TupleV, SliceV, BoolV, NoneV
 from ..extapi import NdArr
 from ..symeval import Raised
 from ..values import Unsupported
@@ -22,6 +22,43 @@ EXPLANATION = (
     "(bins that wrapped in: the first ceil(a) / last ceil(|a|) shifted bins, a = df*N/sample_rate, for every element the shift "
     "broadcasts to; everything for |a| >= N). For concrete per-element shift arrays on symbolic-length signals (NumPy and Dask) the element index of the shift must sit on the matching sample axis of the result term and every element must be mixed with its own exp(+2*pi*i*df_elem*t). Value accuracy and the boundary-bin convention are not decided."
 )
+
+
+def concretize_index(idx, pt):
+    """The time-axis slice (start, stop) a recorded store index denotes at a valuation of the symbols; None if undecidable."""
+    from ..symeval import PhiV
+    from .. import terms as _T
+
+    def val(v):
+        if isinstance(v, NoneV):
+            return None
+        e = sp.sympify(v.expr).subs(pt)
+        try:
+            r = _T.evaluate(e, env={})
+        except Exception:
+            return "?"
+        r = sp.sympify(r)
+        if not (r.is_number and r.is_real and r == sp.floor(r)):
+            return "?"
+        return int(r)
+
+    def pick(v):
+        while isinstance(v, PhiV):
+            c = sp.sympify(v.cond).subs(pt)
+            try:
+                c = bool(sp.simplify(c)) if c not in (sp.true, sp.false) else bool(c)
+            except Exception:
+                return None
+            v = v.a if c else v.b
+        return v
+    first = idx.items[0] if isinstance(idx, TupleV) else idx
+    first = pick(first)
+    if not isinstance(first, SliceV):
+        return None
+    a_, b_ = val(first.start), val(first.stop)
+    if "?" in (a_, b_) or not isinstance(first.step, NoneV):
+        return None
+    return (a_, b_)
 
 
 def check(run, prog):
@@ -54,6 +91,28 @@ def check(run, prog):
         ck.same("R3", fi.where, "zero-fill target " + tag, "the zero-fill is applied to the fftshift-ed spectrum (between fftshift and ifftshift)",
                 bool(stores) and all(isinstance(t[1], Num) and sp.simplify(t[1].expr - Z) == 0 for t in stores),
                 found=(str(stores[0][1].expr)[:160] if stores else "no zero-fill store at all"), expected=str(Z)[:160], nontrivial=True)
+        # zero-fill extent for a scalar shift, decided at chosen shifts in bins (small, fractional, whole, and tens of thousands of
+        # bins with a small fraction, where a relative-tolerance "snap to whole bins" would change the extent)
+        if stores:
+            bad_ext, unk_ext = None, None
+            for a_bins in (sp.Rational(5, 2), sp.Rational(-7, 2), sp.Rational(1, 3), sp.Integer(7), sp.Integer(-4), sp.Rational(120001, 4), -sp.Rational(987655, 8),
+                           sp.Rational(-1, 5)):
+                nval = sp.Integer(65536)
+                pt = {N: nval, SR: sp.Integer(1), df: a_bins / nval, Hz: sp.Integer(1)}
+                got = concretize_index(stores[0][2], pt)
+                if got is None:
+                    unk_ext = f"store index not decidable at {a_bins} bins: {str(stores[0][2])[:120]}"
+                    break
+                want = (int(sp.floor(a_bins)), None) if a_bins < 0 else (None, int(sp.ceiling(a_bins)))
+                if got != want:
+                    bad_ext = f"shift of {a_bins} bins (N = {nval}): zero-fills [{got[0]}:{got[1]}], expected [{want[0]}:{want[1]}]"
+                    break
+            if unk_ext:
+                ck.unk("R2", fi.where, "zero-fill extent " + tag, "first ceil(a) / last ceil(|a|) shifted bins for a shift of a bins", unk_ext)
+            else:
+                ck.same("R2", fi.where, "zero-fill extent (scalar shift, chosen magnitudes) " + tag,
+                        "the zero-filled range is [:ceil(a)] for a > 0 and [floor(a):] for a < 0 bins, also for shifts of tens of thousands of bins with a small fraction",
+                        bad_ext is None, found=bad_ext, nontrivial=True)
         prec = [t for t in ev.trace if t[0] in ("exp-dtype", "precision-cast")]
         ck.same("R1", fi.where, "mixer precision " + tag, "the mixer phase is exponentiated at full precision before the cast to the signal dtype",
                 not prec, found=str(prec)[:200], nontrivial=True)
